@@ -251,8 +251,7 @@ mod kani_c11 {
     }
 
     #[cfg(all(feature = "socket-udp", feature = "proto-ipv6"))]
-    #[kani::proof] #[kani::stub(crate::wire::UdpRepr::parse, udp_parse_any)] #[kani::stub(crate::wire::TcpRepr::parse, tcp_parse_any)] #[kani::unwind(20)]
-    fn c11_process_ipv6_filters() {
+    fn ipv6_filters_case(case: u8) {
         use crate::socket::udp;
         let mut cx = InterfaceInner::kani_ctx(Instant::from_millis(0), 1500, kani::any(), false);
         let own = Ipv6Address::new(0xfe80, 0, 0, 0, 0, 0, 0, 1);
@@ -264,7 +263,7 @@ mod kani_c11 {
         let x: u16 = kani::any();
         let other = Ipv6Address::new(0xfe80, 0, 0, 0, 0, 0, 0, 2);
         // source multicast / unspecified to our address; or a unicast source to a foreign unicast address / an unjoined group
-        let (src, dst) = match kani::any::<u8>() % 4 {
+        let (src, dst) = match case {
             0 => (Ipv6Address::UNSPECIFIED, own),
             1 => (Ipv6Address::new(0xff00 | (x & 0xff), 0, 0, 0, 0, 0, 0, x >> 8), own),
             2 => (other, Ipv6Address::new(0x2001, 0xdb8, 0, 0, 0, 0, x, 9)),
@@ -276,8 +275,21 @@ mod kani_c11 {
         ip.emit(&mut Ipv6Packet::new_unchecked(&mut bytes[..]));
         bytes[40 + 4] = 0; bytes[40 + 5] = 12;
         let r = cx.process_ipv6(&mut sockets, PacketMeta::default(), HardwareAddress::Ip, &Ipv6Packet::new_unchecked(&bytes[..]));
-        kani::cover!(dst != own, "foreign destination reachable");
+        kani::cover!(proto == IpProtocol::Udp, "UDP case reachable");
+        kani::cover!(proto == IpProtocol::Tcp, "TCP case reachable");
         assert!(r.is_none(), "C11.ipv6: traffic not addressed to the interface, or from a non-unicast source, is never answered");
         assert!(!sockets.get::<udp::Socket>(h).can_recv(), "C11.ipv6: ... and never delivered to a socket");
     }
+    #[cfg(all(feature = "socket-udp", feature = "proto-ipv6"))]
+    #[kani::proof] #[kani::stub(crate::wire::UdpRepr::parse, udp_parse_any)] #[kani::stub(crate::wire::TcpRepr::parse, tcp_parse_any)] #[kani::unwind(20)]
+    fn c11_process_ipv6_filters_src_unspecified() { ipv6_filters_case(0); }
+    #[cfg(all(feature = "socket-udp", feature = "proto-ipv6"))]
+    #[kani::proof] #[kani::stub(crate::wire::UdpRepr::parse, udp_parse_any)] #[kani::stub(crate::wire::TcpRepr::parse, tcp_parse_any)] #[kani::unwind(20)]
+    fn c11_process_ipv6_filters_src_multicast() { ipv6_filters_case(1); }
+    #[cfg(all(feature = "socket-udp", feature = "proto-ipv6"))]
+    #[kani::proof] #[kani::stub(crate::wire::UdpRepr::parse, udp_parse_any)] #[kani::stub(crate::wire::TcpRepr::parse, tcp_parse_any)] #[kani::unwind(20)]
+    fn c11_process_ipv6_filters_dst_foreign_unicast() { ipv6_filters_case(2); }
+    #[cfg(all(feature = "socket-udp", feature = "proto-ipv6"))]
+    #[kani::proof] #[kani::stub(crate::wire::UdpRepr::parse, udp_parse_any)] #[kani::stub(crate::wire::TcpRepr::parse, tcp_parse_any)] #[kani::unwind(20)]
+    fn c11_process_ipv6_filters_dst_unjoined_group() { ipv6_filters_case(3); }
 }
